@@ -436,6 +436,14 @@ def task_bounded(I, seed, k):
                 except ValueError:
                     outcome = 'ValueError'
                 good = (outcome == 331) if must_accept else (outcome == 'ValueError')
+                if must_accept and good:
+                    # the largest payload still gives a symbol (level M, version <= 13)
+                    try:
+                        q_ = H.make_epc_qr(**kw)
+                        good = q_.error == 'M' and isinstance(q_.version, int) and q_.version <= 13
+                        outcome = '%s for the 331 byte payload' % q_.designator
+                    except Exception as ex:
+                        good, outcome = False, 'make_epc_qr raised %r for the 331 byte payload' % (ex,)
                 report('C16.bounded.epc_payload_of_331_bytes_accepted_332_refused', [] if (good and ok_len) else ['payload of %d bytes: %r' % (l0 + extra, outcome)],
                        dict(call='_make_epc_qr_data(name=70 two-byte characters, text=%d characters, ...)' % (1 + extra)), dict(fn='replay_payload', builder='epc', kw=repr(kw)))
         except Exception as ex:
